@@ -96,6 +96,14 @@ pub fn arm_fault_delayed(name: &str, nth: u32, kind: FaultKind, delay: std::time
     });
 }
 
+static STALL: Mutex<Option<(String, std::time::Duration)>> = Mutex::new(None);
+
+/// Make the thread that next reaches the fault point `name` linger there for `delay` and then
+/// carry on (a worker that is descheduled for a while). Independent of the armed fault.
+pub fn arm_stall(name: &str, delay: std::time::Duration) {
+    *STALL.lock().unwrap() = Some((name.to_owned(), delay));
+}
+
 /// The instant at which the armed fault fired, if it did.
 pub fn fault_fired_at() -> Option<std::time::Instant> {
     FAULT.lock().unwrap().as_ref().and_then(|f| f.fired_at)
@@ -103,6 +111,13 @@ pub fn fault_fired_at() -> Option<std::time::Instant> {
 
 /// Named fault point. Returns true if the caller must return early; panics if armed to panic.
 pub fn fault_point(name: &str) -> bool {
+    let stall = match STALL.lock() {
+        Ok(mut g) if g.as_ref().map(|s| s.0 == name).unwrap_or(false) => g.take(),
+        _ => None,
+    };
+    if let Some((_, delay)) = stall {
+        std::thread::sleep(delay);
+    }
     let reached = {
         let mut guard = match FAULT.lock() {
             Ok(g) => g,
